@@ -550,3 +550,40 @@ func ExcludedE(path string, pats []string) bool {
 	}
 	return p && c
 }
+
+// Reverser is implemented by *fox.Router and *fox.Txn.
+type Reverser interface {
+	Reverse(method, host, path string) (*fox.Route, bool)
+	Iter() fox.Iter
+}
+
+// IterReverseDiff compares Iter.Reverse over all methods of l at once (the documented idiom for "which methods serve this
+// url") with Reverse asked method by method: a method is yielded, once, with the route Reverse finds for it, if that route
+// matches directly or has a trailing-slash option enabled. It returns "" when they agree.
+func IterReverseDiff(l Reverser, host, path string) string {
+	it := l.Iter()
+	want := map[string]string{}
+	var methods []string
+	for m := range it.Methods() {
+		methods = append(methods, m)
+		if rte, tsr := l.Reverse(m, host, path); rte != nil && (!tsr || rte.IgnoreTrailingSlashEnabled() || rte.RedirectTrailingSlashEnabled()) {
+			want[m] = rte.Pattern()
+		}
+	}
+	got := map[string]string{}
+	for m, rte := range it.Reverse(it.Methods(), host, path) {
+		if prev, dup := got[m]; dup {
+			return fmt.Sprintf("Iter.Reverse(Iter.Methods(), %q, %q) yields method %s twice (%q, %q)", host, path, m, prev, rte.Pattern())
+		}
+		got[m] = rte.Pattern()
+	}
+	if len(got) != len(want) {
+		return fmt.Sprintf("Iter.Reverse(Iter.Methods()=%v, host %q, path %q) yields %v; Reverse asked method by method finds %v", methods, host, path, got, want)
+	}
+	for m, p := range want {
+		if got[m] != p {
+			return fmt.Sprintf("Iter.Reverse(Iter.Methods()=%v, host %q, path %q) yields %v; Reverse asked method by method finds %v", methods, host, path, got, want)
+		}
+	}
+	return ""
+}
